@@ -223,6 +223,114 @@ theorem op_accepts (m : MState) (s : Store String) (hl : Link m s) (op : Op Stri
       · simp only [h0, if_false, Option.some.injEq] at hn ⊢; exact hn
     | _ => exact hl.max n (by simpa [bookOp] using hn)
 
+/-! ## The iteration protocol -/
+
+/-- What `After` answers travels unchanged through the nested-observation type. -/
+theorem after_out_kind (s s' : Store String) (k : Key) (i : Int) (o : Out String)
+    (hs : step psz s (.after k i) = some (s', o)) : (aobsOfOut o).toObs = obsOfOut o := by
+  simp only [step] at hs
+  split at hs
+  · simp only [Option.some.injEq, Prod.mk.injEq] at hs; rw [← hs.2]; rfl
+  · rename_i dl _
+    simp only [Option.some.injEq, Prod.mk.injEq] at hs; rw [← hs.2]
+    simp only [afterOut]
+    split
+    · rfl
+    · split <;> rfl
+
+/-- The calls issued from inside an iteration: the model answers them all, the monitor is silent on the
+answers to the `After`s among them (each judged at its time), the link is kept. -/
+theorem script_accepts : ∀ (script : List (Op String)) (m : MState) (s : Store String), Link m s →
+    ∃ s' nested, runScript s script = some (s', nested) ∧ nestedClause m script nested = none ∧
+      Link (script.foldl bookOp m) s' := by
+  intro script
+  induction script with
+  | nil => intro m s hl; exact ⟨s, [], rfl, rfl, hl⟩
+  | cons op ops ih =>
+    intro m s hl
+    obtain ⟨s1, o, hs, hc, hl1⟩ := op_accepts m s hl op
+    obtain ⟨s2, os, hr, hn, hl2⟩ := ih _ s1 hl1
+    cases op with
+    | after k i =>
+      refine ⟨s2, aobsOfOut o :: os, by simp only [runScript, hs, hr], ?_, hl2⟩
+      have hk := after_out_kind s s1 k i o hs
+      simp only [nestedClause, hk, hc]
+      exact hn
+    | «open» k => exact ⟨s2, os, by simp only [runScript, hs, hr], by simpa only [nestedClause] using hn, hl2⟩
+    | append k d => exact ⟨s2, os, by simp only [runScript, hs, hr], by simpa only [nestedClause] using hn, hl2⟩
+    | setMax n => exact ⟨s2, os, by simp only [runScript, hs, hr], by simpa only [nestedClause] using hn, hl2⟩
+    | closed sess => exact ⟨s2, os, by simp only [runScript, hs, hr], by simpa only [nestedClause] using hn, hl2⟩
+    | maxBytes => exact ⟨s2, os, by simp only [runScript, hs, hr], by simpa only [nestedClause] using hn, hl2⟩
+
+theorem deliverPlain_not_locked (l : List String) (stop : Option Nat) : (deliverPlain l stop).1 ≠ .locked := by
+  cases stop with
+  | none => simp [deliverPlain]
+  | some n =>
+    simp only [deliverPlain]
+    by_cases h : 1 ≤ n ∧ n ≤ l.length
+    · simp [h]
+    · simp [h]
+
+theorem deliver_ignore_not_locked (it : Iter String) (stop : Option Nat) :
+    (deliver .ignore it stop none).1 ≠ .locked := by
+  obtain ⟨snap, err⟩ := it
+  cases err with
+  | none => simpa [deliver] using deliverPlain_not_locked snap stop
+  | some e => cases e <;> simp [deliver]
+
+/-- The `iter` clause is silent on the model's delivery (the code as it is ignores the context), whatever
+the consumer and the context do. -/
+theorem iterClause_model (m : MState) (s : Store String) (hl : Link m s) (k : Key) (i : Int) (cm : CtxMode)
+    (stop : Option Nat) :
+    iterClause m k i cm stop (deliver .ignore (afterIter s k i) stop none).1
+      (deliver .ignore (afterIter s k i) stop none).2 = none ∧
+    (deliver .ignore (afterIter s k i) stop none).1 ≠ .locked := by
+  have hfl := find_logs k s.store
+  have hsp := hl.spec k
+  rw [← hfl] at hsp
+  cases hf : find k s.store with
+  | none =>
+    rw [hf] at hsp
+    have hd : deliver .ignore (afterIter s k i) stop none = (.unknown, []) := by
+      simp [deliver, afterIter, hf]
+    rw [hd]
+    refine ⟨?_, by decide⟩
+    simp only [iterClause]
+    split
+    · rename_i h; cases h
+    · split
+      · rfl
+      · simp [hsp]
+  | some dl =>
+    rw [hf] at hsp
+    simp only [Option.map_some] at hsp
+    have hdl : DLInv psz dl := hl.inv.1 (k, dl) (find_mem k s.store dl hf)
+    by_cases hi : i < -1
+    · exact ⟨by simp only [iterClause, hi, if_true, deliver_ignore_not_locked, if_false], deliver_ignore_not_locked _ _⟩
+    · rcases afterOut_spec dl hdl i (by omega) with ⟨hp, hlt⟩ | hit
+      · have hd : deliver .ignore (afterIter s k i) stop none = (.purged, []) := by
+          simp [deliver, afterIter, hf, hp, iterOfOut]
+        rw [hd]
+        refine ⟨?_, by decide⟩
+        have hne : (dl.log.drop (i + 1).toNat).isEmpty = false := by
+          cases hd : dl.log.drop (i + 1).toNat with
+          | nil => rw [List.drop_eq_nil_iff] at hd; omega
+          | cons a t => rfl
+        simp [iterClause, hi, hsp, hne]
+      · have hd : deliver .ignore (afterIter s k i) stop none = deliverPlain (dl.log.drop (i + 1).toNat) stop := by
+          simp [deliver, afterIter, hf, hit, iterOfOut]
+        rw [hd]
+        cases stop with
+        | none => exact ⟨by simp [deliverPlain, iterClause, hi, hsp], by simp [deliverPlain]⟩
+        | some n =>
+          simp only [deliverPlain]
+          split
+          · rename_i hn
+            have hn2 := hn.2
+            simp only [List.length_drop] at hn2
+            exact ⟨by simp [iterClause, hi, hsp, hn.1, hn2], by simp⟩
+          · exact ⟨by simp [iterClause, hi, hsp], by simp⟩
+
 /-- One record. -/
 theorem rec_accepts (m : MState) (s : Store String) (hl : Link m s) (r : Rec) :
     ∃ s' obs, recStep s r = some (s', obs) ∧ (monStep m r obs).2 = none ∧ Link (monStep m r obs).1 s' := by
@@ -235,6 +343,13 @@ theorem rec_accepts (m : MState) (s : Store String) (hl : Link m s) (r : Rec) :
     have := after_step_state s s1 k i o1 hs1; subst this
     obtain ⟨s2, o2, hs2, _, hl2⟩ := op_accepts m s1 hl (.append k2 p)
     exact ⟨s2, obsOfOut o1, by simp [recStep, hs1, hs2], hc1, hl2⟩
+  | iter k i cm stop script =>
+    obtain ⟨s', nested, hr, hn, hl'⟩ := script_accepts script m s hl
+    obtain ⟨hc, _⟩ := iterClause_model m s hl k i cm stop
+    refine ⟨s', .iter (deliver .ignore (afterIter s k i) stop none).1 (deliver .ignore (afterIter s k i) stop none).2 nested,
+      by simp only [recStep, hr], ?_, hl'⟩
+    simp only [monStep, hc]
+    exact hn
   | stat =>
     refine ⟨s, _, rfl, ?_, hl⟩
     simp only [monStep, statClause]
